@@ -245,9 +245,46 @@ var deferArgTemplates = []struct{ src, want string }{
 	{"x = 1\nfunc() {\ndefer probe(x)\nx = 2\n}()", "(i 1)"},
 	{"a = [1]\nfunc() {\ndefer func(v) { probe(v) }(a[0])\na[0] = 7\n}()", "(i 1)"},
 	{"a = [[1]]\nfunc() {\ndefer probe(a[0])\na[0][0] = 9\n}()", "(l (i 9))"},
+	// the callee is what the name is bound to when the defer statement runs - every time it runs
+	{"func work(n) {\nfunc cleanup() { probe(n) }\ndefer cleanup()\n}\nwork(1)\nwork(2)", "(i 1) (i 2)"},
+	{"h = func() { probe(\"a\") }\nfunc f() {\ndefer h()\n}\nf()\nh = func() { probe(\"b\") }\nf()", "(s 61) (s 62)"},
+	{"func mk(k) { return func() { probe(k) } }\nfunc f() {\nfor i = 0; i < 3; i++ {\nhnd = mk(i)\ndefer hnd()\n}\n}\nf()", "(i 2) (i 1) (i 0)"},
+	{"func f(g) {\ndefer g(5)\n}\nf(probe)\nf(func(v) { probe(v + 1) })\nf(probe)", "(i 5) (i 6) (i 5)"},
+	// a deferred spread call passes the elements, as the same call does without defer
+	{"func v(x...) { probe(len(x)) }\nfunc f() {\nxs = [1, 2, 3]\ndefer v(xs...)\n}\nf()", "(i 3)"},
+	{"func v(a, x...) { probe([a, len(x)]) }\nfunc f() {\nxs = [1, 2]\ndefer v(0, xs...)\n}\nf()", "(l (i 0) (i 2))"},
+	{"func f() {\nxs = [1, 2, 3]\ndefer vprobe(xs...)\nreturn 7\n}\nprobe(f())", "(i 1) (i 2) (i 3) (i 7)"},
+	{"func f() {\nxs = [4, 5]\ndefer vtyped(xs...)\nreturn 7\n}\nprobe(f())", "(i 4) (i 5) (i 7)"},
+	{"func f() {\ndefer vprobe(1, 2)\ndefer fv(0, [8, 9]...)\n}\nf()", "(i 0) (i 8) (i 9) (i 1) (i 2)"},
+}
+
+// deferred calls (and later stores) do not alter the result an invocation has already computed
+var deferResultTemplates = []struct{ src, want string }{
+	{"a = [1, 2]\nprobe(func() {\ndefer func() { a[0] = 9 }()\nreturn a[0]\n}())", "(i 1)"},
+	{"x = 1\nprobe(func() {\ndefer func() { x = 2 }()\nreturn x\n}())", "(i 1)"},
+	{"m = {\"k\": 1}\nprobe(func() {\ndefer func() { m.k = 9 }()\nreturn m.k\n}())", "(i 1)"},
+	{"a = [1, 2]\nprobe(func() {\ndefer func() { a[0] = 9 }()\nreturn a[0], a[1]\n}())", "(l (i 1) (i 2))"},
+	{"a = [1, 2]\nfunc f() {\nreturn a[0]\n}\nr = f()\na[0] = 9\nprobe(r)", "(i 1)"},
+	{"a = [1, 2]\nfunc f() {\nreturn a[1]\n}\nl = [f()]\na[1] = 9\nprobe(l)", "(l (i 2))"},
+	{"t = make([]int64, 2)\nt[0] = 1\nprobe(func() {\ndefer func() { t[0] = 9 }()\nreturn t[0]\n}())", "(i 1)"},
+	{"a = [1, 2]\nprobe(func() {\ndefer func() { a[0] = 9 }()\nif true {\nreturn a[0]\n}\n}())", "(i 1)"},
+	{"a = [1, 2]\nprobe(func() {\ndefer func() { a = [7, 8] }()\nreturn a\n}())", "(l (i 1) (i 2))"},
 }
 
 func streamErrors(o *Out, r *rand.Rand, n int, thorough bool) {
+	for _, t := range deferResultTemplates {
+		stmt, err := parser.ParseSrc(t.src)
+		if err != nil {
+			o.Fail(Failure{Oracle: "errors-template-parses", Key: "errors-template-parse", Input: t.src, Detail: err.Error()})
+			continue
+		}
+		res := runVM(stmt, -1, 3*time.Second)
+		o.Case(fmt.Sprintf("(run %d _ %s)", modelFuel, astser.Prog(stmt)), res.line, t.src, true)
+		o.Sum.Hist["defer-result-template"]++
+		if res.err != nil || strings.Join(res.trace, " ") != t.want {
+			o.Fail(Failure{Oracle: "defer-leaves-result", Key: "defer-alters-result", Input: t.src, Detail: fmt.Sprintf("the invocation's result is %v (err %v), expected %s", res.trace, res.err, t.want)})
+		}
+	}
 	for _, t := range deferArgTemplates {
 		stmt, err := parser.ParseSrc(t.src)
 		if err != nil {
